@@ -334,7 +334,7 @@ def _mk_skips(w0, w1, w2, ks):
     return mk
 
 
-_P2Q = ["pair == 0 and a0 == 0", "pair == 1 and a0 == 0", "pair == 2 and a0 == 0 and a1 <= 1", "pair == 2 and a0 == 0 and a1 >= 2",
+_P2Q = ["pair == 0 and a0 == 0 and a1 <= 1", "pair == 0 and a0 == 0 and a1 >= 2", "pair == 1 and a0 == 0", "pair == 2 and a0 == 0 and a1 <= 1", "pair == 2 and a0 == 0 and a1 >= 2",
         "a0 >= 1"]
 _P2T = [f"pair == {p} and a0 {c}" for p in range(len(PAIRS)) for c in ("== 0", ">= 1")]
 
@@ -352,7 +352,6 @@ def ob_graph2(pair: int, a0: int, a1: int, r00: bool, r01: bool, r02: bool, r03:
     """
     pre: 0 <= pair < NPAIRS and 0 <= a0 <= 3 and 0 <= a1 <= 3
     pre: THOROUGH or ((a0 == 0 or (a1 >= 1 and not (r10 or r11 or r12 or r13))) and (pair == 0 or not (w1 or w2)))
-    pre: not (sub_only2(pair, a0, a1, r02, r03, r12, r13))  # TEMP-EXCL
     post: _
     """
     steps = _steps2(pair, a0, a1, [r00, r01, r02, r03], [r10, r11, r12, r13])
